@@ -114,6 +114,15 @@ def judge_a(t):
                 V('C10.4-nodeps', 'dependency %s is reported %s under noDeps' % (m, R.get(m)), what='dependency-status', status=str(R.get(m)))
             if m in puts and m not in borrowed:
                 V('C10.4-nodeps', 'dependency %s was written under noDeps' % m, what='dependency-written')
+    # the real StubSearcher: up to date exactly for the names on its list
+    for i, se in enumerate(scn.get('searchers', ())):
+        if se.get('flavour') == 'realstub':
+            listed = set(n for n, a in se.get('answers', {}).items() if a == 'fresh')
+            for c in t.by('searcher.fileExists'):
+                if c.comp == i and not c.injected:
+                    said = c.exc is not None and type(c.exc).__name__ == 'PySmiFileNotModifiedError'
+                    if said != (c.mib in listed):
+                        V('C10.3-rebuild', 'stub list %s answered %s for %s' % (sorted(listed), 'up to date' if said else 'not listed', c.mib), what='stub-wrong-answer')
     # a module obtained from a borrower goes through the searchers as well (its copy may already be in place)
     for m in sorted(borrowed):
         if nse and (m, 1) not in per and str(R.get(m)) == 'borrowed':
